@@ -218,10 +218,24 @@ def _make_fevals(kind, N1, rng, mode, bounds):
                     dims.append((lo_ - 0.05, hi_ + 0.05, rng.randint(5, 9)))
                 gd = UCGrid(*dims)
                 vals = nprng.normal(size=tuple(d[2] for d in dims)) * 0.05
+                cf = filter_cubic(gd, vals)
+                if t > 0 and rng.chance(0.5):
+                    # look-alike terms (e.g. independently fitted, nearly spin-symmetric terms):
+                    # the same table shape as term 0 with coefficients that are the same object,
+                    # an equal copy, or equal up to 1e-12 / 1e-7 / 1e-5 relative
+                    nd0 = len(ind_sets[0])
+                    if nd0 <= N1:
+                        inds = sorted(rng.sample(list(range(N1)), nd0))
+                        gd = grids[0]
+                        eps = rng.choice([None, 0.0, 1e-12, 1e-7, 1e-5])
+                        if eps is None:
+                            cf = coefs[0]
+                        else:
+                            cf = coefs[0] * (1.0 + eps * nprng.normal(size=coefs[0].shape))
                 scale.append(float(nprng.uniform(0.5, 1.5)))
                 ind_sets.append([int(i) for i in inds])
                 grids.append(gd)
-                coefs.append(filter_cubic(gd, vals))
+                coefs.append(cf)
             fevals.append(xe.SplineSetEvaluator(scale, ind_sets, grids, coefs, const=float(nprng.normal() * 0.01)))
         else:
             raise ValueError(part)
